@@ -492,6 +492,23 @@ func genC08(g *G) {
 			emitParse("-", "p", 70000, "::1 x\n"+long+"\n::1 y\n", "")
 		}
 	}
+	// sources larger than the scanner's buffer, made of lines of one width: whatever stays in the buffer
+	// from an earlier load sits exactly under a later line (addresses from a small pool, some invalid)
+	for i := 0; i < g.N(24, 200); i++ {
+		var sb strings.Builder
+		nl := []int{512, 600, 1024, 300}[i%4]
+		for ln := 1; ln <= nl; ln++ {
+			addr := []string{"10.0.0.1", "10.0.0.2", "10.0.0.3", "10.0.0.x"}[g.Rnd.IntN(4)]
+			if g.Rnd.IntN(3) != 0 {
+				addr = []string{"10.0.0.1", "10.0.0.2", "10.0.0.3"}[g.Rnd.IntN(3)]
+			}
+			sb.WriteString(addr + " h" + fmt.Sprintf("%05d", ln) + "\n")
+		}
+		emitParse("-", kinds[i%len(kinds)], 0, sb.String(), "")
+		if i%4 == 0 {
+			emitParse("-", "h", 0, sb.String(), "4096n,4096n,100n,4096n")
+		}
+	}
 	// names that are long in UTF-8 but short in Punycode, long-zone addresses
 	idn := []string{strings.Repeat(strings.Repeat("ä", 55)+".", 4) + "com", strings.Repeat(strings.Repeat("я", 30)+".", 4) + strings.Repeat("я", 30),
 		strings.Repeat(strings.Repeat("é", 55)+".", 3) + "Example.ORG", strings.Repeat("я.", 126) + "com"}
@@ -544,6 +561,26 @@ func genC08(g *G) {
 		}
 	}
 	rec(nil, L)
+	// many names for one address (sets that outgrow a small-size representation), names differing only
+	// in case among them, and every one of them added again afterwards
+	for _, n := range []int{7, 8, 9, 10, 12, 17, 33} {
+		for _, upperAt := range []int{0, 3, n - 1} {
+			first := []string{"1.2.3.4"}
+			for k := 0; k < n; k++ {
+				nm := "n" + I(k) + ".example"
+				if k == upperAt {
+					nm = "N" + I(k) + ".Example"
+				}
+				first = append(first, nm)
+			}
+			recs := [][]string{first}
+			for k := 0; k < n; k++ {
+				recs = append(recs, []string{"1.2.3.4", "n" + I(k) + ".example"}, []string{"::1", "N" + I(k) + ".EXAMPLE"})
+			}
+			recs = append(recs, first)
+			emitStor(recs)
+		}
+	}
 	for i := 0; i < g.N(8000, 200000); i++ {
 		var recs [][]string
 		for j := g.Rnd.IntN(9); j > 0; j-- {
